@@ -602,10 +602,13 @@ impl<B> Flow<B, RecvResponse> {
             .last()
             .cloned();
 
-        if response.headers().iter().has("connection", "close") {
-            self.inner
-                .close_reason
-                .push(CloseReason::ServerConnectionClose);
+        // This function can be called again after it returned the response. Each reason is
+        // recorded once, the list has room for one of each.
+        let reason = CloseReason::ServerConnectionClose;
+        if response.headers().iter().has("connection", "close")
+            && !self.inner.close_reason.contains(&reason)
+        {
+            self.inner.close_reason.push(reason);
         }
 
         Ok((input_used, Some(response)))
